@@ -42,6 +42,45 @@ theorem quiet_true_all_diag : ∀ (l : List Ev), quiet true l = true → l.all E
     · simp only [he, if_true] at h; simp [he, quiet_true_all_diag es h]
     · simp [he] at h
 
+/-- the bytes the `out` events of a trace write to stdout, in order -/
+def outOf : List Ev → List Char
+  | [] => []
+  | .out s :: es => s ++ outOf es
+  | _ :: es => outOf es
+
+/-- the diagnostics a trace reports, in order -/
+def diagsOf : List Ev → List Diag
+  | [] => []
+  | .diag d :: es => d :: diagsOf es
+  | _ :: es => diagsOf es
+
+/-- the number of built-in invocations in a trace -/
+def nativesOf : List Ev → Nat
+  | [] => 0
+  | .native :: es => nativesOf es + 1
+  | _ :: es => nativesOf es
+
+theorem outOf_append (a b : List Ev) : outOf (a ++ b) = outOf a ++ outOf b := by
+  induction a with
+  | nil => rfl
+  | cons e es ih => cases e <;> simp [outOf, ih]
+
+theorem diagsOf_append (a b : List Ev) : diagsOf (a ++ b) = diagsOf a ++ diagsOf b := by
+  induction a with
+  | nil => rfl
+  | cons e es ih => cases e <;> simp [diagsOf, ih]
+
+theorem nativesOf_append (a b : List Ev) : nativesOf (a ++ b) = nativesOf a + nativesOf b := by
+  induction a with
+  | nil => simp [nativesOf]
+  | cons e es ih => cases e <;> simp [nativesOf, ih] <;> omega
+
+/-- the observable fields of a store are the projections of its event trace: stdout is exactly the
+    printed texts, the diagnostics are exactly the reported ones, the flag is set iff there is one,
+    the call counter counts the built-in entries -/
+def LogOk (σ : Store) : Prop :=
+  σ.out = outOf σ.trace ∧ σ.diags = diagsOf σ.trace ∧ σ.hadError = !σ.diags.isEmpty ∧ σ.nativeCalls = nativesOf σ.trace
+
 /-- no object holds a property name twice -/
 def ObjsOk (σ : Store) : Prop := ∀ (i : Nat) (ps : List (Name × Val)), σ.objs[i]? = some ps → (ps.map (·.1)).Nodup
 
@@ -59,16 +98,18 @@ structure Ext (σ σ' : Store) : Prop where
   diags_ext : ∃ d, σ'.diags = σ.diags ++ d
   /-- objects stay well-formed: if no object of `σ` holds a key twice, none of `σ'` does -/
   objs_nodup : ObjsOk σ → ObjsOk σ'
+  /-- the observable fields stay the projections of the trace -/
+  log_ok : LogOk σ → LogOk σ'
 
 namespace Ext
 
 theorem refl (σ : Store) : Ext σ σ :=
   ⟨Nat.le_refl _, fun i fr h => ⟨fr, h, rfl, fun _ h => h⟩, fun i xs h => ⟨xs, h, rfl⟩, Nat.le_refl _, fun _ _ h => h,
-   fun h => h, ⟨[], by simp, rfl, by simp⟩, fun _ => ⟨rfl, rfl, rfl⟩, ⟨[], by simp⟩, fun h => h⟩
+   fun h => h, ⟨[], by simp, rfl, by simp⟩, fun _ => ⟨rfl, rfl, rfl⟩, ⟨[], by simp⟩, fun h => h, fun h => h⟩
 
 theorem trans {a b c : Store} (h1 : Ext a b) (h2 : Ext b c) : Ext a c := by
   refine ⟨Nat.le_trans h1.envs_len h2.envs_len, ?_, ?_, Nat.le_trans h1.objs_len h2.objs_len, ?_, ?_, ?_, ?_, ?_,
-    fun h => h2.objs_nodup (h1.objs_nodup h)⟩
+    fun h => h2.objs_nodup (h1.objs_nodup h), fun h => h2.log_ok (h1.log_ok h)⟩
   · intro i fr h
     obtain ⟨fr1, e1, p1, d1⟩ := h1.env_keep i fr h
     obtain ⟨fr2, e2, p2, d2⟩ := h2.env_keep i fr1 e1
@@ -101,7 +142,7 @@ theorem of_tables (σ σ' : Store)
     (hn : σ'.nativeCalls = σ.nativeCalls) (ht : σ'.trace = σ.trace) : Ext σ σ' := by
   obtain ⟨ex, henvs⟩ := henvs; obtain ⟨ax, harrs⟩ := harrs; obtain ⟨ox, hobjs, hox⟩ := hobjs; obtain ⟨fx, hfuns⟩ := hfuns
   refine ⟨by simp [henvs], ?_, ?_, by simp [hobjs], ?_, by simp [he], ⟨[], by simp [ht], rfl, by simp [he]⟩,
-    fun _ => ⟨ho, hi, hn⟩, ⟨[], by simp [hd]⟩, ?_⟩
+    fun _ => ⟨ho, hi, hn⟩, ⟨[], by simp [hd]⟩, ?_, fun h => by unfold LogOk at h ⊢; rw [ho, hd, he, hn, ht]; exact h⟩
   rotate_left 3
   · intro hok i ps h
     rw [hobjs] at h
@@ -134,22 +175,50 @@ theorem newFun (σ : Store) (c : Closure) : Ext σ (σ.newFun c).1 :=
 theorem rte (σ : Store) (msg : List Char) (line : Nat) : Ext σ (σ.rte msg line) := by
   refine ⟨Nat.le_refl _, fun i fr h => ⟨fr, h, rfl, fun _ h => h⟩, fun i xs h => ⟨xs, h, rfl⟩, Nat.le_refl _, fun _ _ h => h,
     fun _ => rfl, ⟨[.diag (.runtime msg line)], rfl, by simp [quiet, Ev.isDiag], by simp [Store.rte, Ev.isDiag]⟩,
-    fun _ => ⟨rfl, rfl, rfl⟩, ⟨_, rfl⟩, fun h => h⟩
+    fun _ => ⟨rfl, rfl, rfl⟩, ⟨_, rfl⟩, fun h => h, ?_⟩
+  intro h
+  obtain ⟨h1, h2, h3, h4⟩ := h
+  refine ⟨?_, ?_, ?_, ?_⟩
+  · simp [Store.rte, outOf_append, outOf, h1]
+  · simp [Store.rte, diagsOf_append, diagsOf, h2]
+  · simp [Store.rte]
+  · simp [Store.rte, nativesOf_append, nativesOf, h4]
 
 theorem print (σ : Store) (s : List Char) (h : σ.hadError = false) : Ext σ (σ.print s) := by
   refine ⟨Nat.le_refl _, fun i fr h => ⟨fr, h, rfl, fun _ h => h⟩, fun i xs h => ⟨xs, h, rfl⟩, Nat.le_refl _, fun _ _ h => h,
     (fun h' => by rw [h] at h'; cases h'), ⟨[.out s], rfl, by simp [quiet, Ev.isDiag, h], by simp [Store.print, Ev.isDiag]⟩,
-    (fun h' => by rw [h] at h'; cases h'), ⟨[], by simp [Store.print]⟩, fun h => h⟩
+    (fun h' => by rw [h] at h'; cases h'), ⟨[], by simp [Store.print]⟩, fun h => h, ?_⟩
+  intro hl
+  obtain ⟨h1, h2, h3, h4⟩ := hl
+  refine ⟨?_, ?_, ?_, ?_⟩
+  · simp [Store.print, outOf_append, outOf, h1]
+  · simp [Store.print, diagsOf_append, diagsOf, h2]
+  · simpa [Store.print] using h3
+  · simp [Store.print, nativesOf_append, nativesOf, h4]
 
 theorem enterNative (σ : Store) (h : σ.hadError = false) : Ext σ σ.enterNative := by
   refine ⟨Nat.le_refl _, fun i fr h => ⟨fr, h, rfl, fun _ h => h⟩, fun i xs h => ⟨xs, h, rfl⟩, Nat.le_refl _, fun _ _ h => h,
     (fun h' => by rw [h] at h'; cases h'), ⟨[.native], rfl, by simp [quiet, Ev.isDiag, h], by simp [Store.enterNative, Ev.isDiag]⟩,
-    (fun h' => by rw [h] at h'; cases h'), ⟨[], by simp [Store.enterNative]⟩, fun h => h⟩
+    (fun h' => by rw [h] at h'; cases h'), ⟨[], by simp [Store.enterNative]⟩, fun h => h, ?_⟩
+  intro hl
+  obtain ⟨h1, h2, h3, h4⟩ := hl
+  refine ⟨?_, ?_, ?_, ?_⟩
+  · simp [Store.enterNative, outOf_append, outOf, h1]
+  · simp [Store.enterNative, diagsOf_append, diagsOf, h2]
+  · simpa [Store.enterNative] using h3
+  · simp [Store.enterNative, nativesOf_append, nativesOf, h4]
 
 theorem consume (σ : Store) (rest : List Char) (h : σ.hadError = false) : Ext σ (σ.consume rest) := by
   refine ⟨Nat.le_refl _, fun i fr h => ⟨fr, h, rfl, fun _ h => h⟩, fun i xs h => ⟨xs, h, rfl⟩, Nat.le_refl _, fun _ _ h => h,
     (fun h' => by rw [h] at h'; cases h'), ⟨[.read], rfl, by simp [quiet, Ev.isDiag, h], by simp [Store.consume, Ev.isDiag]⟩,
-    (fun h' => by rw [h] at h'; cases h'), ⟨[], by simp [Store.consume]⟩, fun h => h⟩
+    (fun h' => by rw [h] at h'; cases h'), ⟨[], by simp [Store.consume]⟩, fun h => h, ?_⟩
+  intro hl
+  obtain ⟨h1, h2, h3, h4⟩ := hl
+  refine ⟨?_, ?_, ?_, ?_⟩
+  · simp [Store.consume, outOf_append, outOf, h1]
+  · simp [Store.consume, diagsOf_append, diagsOf, h2]
+  · simpa [Store.consume] using h3
+  · simp [Store.consume, nativesOf_append, nativesOf, h4]
 
 theorem upsert_keeps {α : Type} (k n : Name) (v : α) (ps : List (Name × α)) (h : (ps.lookup n).isSome = true) :
     ((upsert k v ps).lookup n).isSome = true := by
@@ -218,7 +287,7 @@ theorem define (σ : Store) (env : Nat) (n : Name) (v : Val) : Ext σ (σ.define
   | some fr0 =>
     have hlt : env < σ.envs.length := (List.getElem?_eq_some_iff.mp henv).1
     refine ⟨by simp, ?_, fun i xs h => ⟨xs, h, rfl⟩, Nat.le_refl _, fun _ _ h => h, fun h => h,
-      ⟨[], by simp, rfl, by simp⟩, fun _ => ⟨rfl, rfl, rfl⟩, ⟨[], by simp⟩, fun h => h⟩
+      ⟨[], by simp, rfl, by simp⟩, fun _ => ⟨rfl, rfl, rfl⟩, ⟨[], by simp⟩, fun h => h, fun h => h⟩
     intro i fr h
     by_cases hi : i = env
     · subst hi
@@ -231,7 +300,7 @@ theorem define (σ : Store) (env : Nat) (n : Name) (v : Val) : Ext σ (σ.define
 theorem setArr (σ : Store) (r k : Nat) (x : Val) :
     Ext σ { σ with arrs := σ.arrs.set r ((σ.arrs[r]?.getD []).set k x) } := by
   refine ⟨Nat.le_refl _, fun i fr h => ⟨fr, h, rfl, fun _ h => h⟩, ?_, Nat.le_refl _, fun _ _ h => h, fun h => h,
-    ⟨[], by simp, rfl, by simp⟩, fun _ => ⟨rfl, rfl, rfl⟩, ⟨[], by simp⟩, fun h => h⟩
+    ⟨[], by simp, rfl, by simp⟩, fun _ => ⟨rfl, rfl, rfl⟩, ⟨[], by simp⟩, fun h => h, fun h => h⟩
   intro i xs h
   have hlt : i < σ.arrs.length := (List.getElem?_eq_some_iff.mp h).1
   by_cases hi : i = r
@@ -244,7 +313,7 @@ theorem setArr (σ : Store) (r k : Nat) (x : Val) :
 theorem setObj (σ : Store) (r : Nat) (ps : List (Name × Val))
     (hps : ObjsOk σ → (ps.map (·.1)).Nodup) : Ext σ { σ with objs := σ.objs.set r ps } := by
   refine ⟨Nat.le_refl _, fun i fr h => ⟨fr, h, rfl, fun _ h => h⟩, fun i xs h => ⟨xs, h, rfl⟩, by simp, fun _ _ h => h, fun h => h,
-    ⟨[], by simp, rfl, by simp⟩, fun _ => ⟨rfl, rfl, rfl⟩, ⟨[], by simp⟩, ?_⟩
+    ⟨[], by simp, rfl, by simp⟩, fun _ => ⟨rfl, rfl, rfl⟩, ⟨[], by simp⟩, ?_, fun h => h⟩
   intro hok i qs h
   by_cases hi : r = i
   · subst hi
